@@ -273,6 +273,11 @@ def make_cases(tier, seed):
             if r.random() < 0.3:
                 A2 = perturb(r, A1, b); f2 = gen.rvec(r, n * b)
                 script += [("rebuild", A2), ("dump",), ("apply", f2, x0), ("fresh", A2, f2, x0)]
+        if r.random() < 0.08:
+            # rebuild needs prm.allow_rebuild: without it the hierarchy is the same and rebuild() must refuse
+            cfg["allow_rebuild"] = 0
+            script = [("dump",), ("cinv",), ("apply", f1, x0)]
+            if r.random() < 0.5: script.append(("rebuild", perturb(r, brows, b)))
         if ctor == "ptr": brows = [sorted(rw) for rw in brows]
         cases.append(BCase("b%d" % k, variant, rt_type, b, relax, ctor, cfg, cprm, damping, ncols, B, n, brows, script))
     return cases
@@ -282,6 +287,29 @@ def fail(c, theorem, impl=None, model=None, **kw):
              op="amgb." + c.variant, size=len(c.impl_line()), theorem=theorem, block=dict(variant=c.variant, rt_type=c.rt_type, b=c.b,
              scalar_route=c.scalar_route(), nullspace_cols=c.ncols, block_size=c.cprm["block_size"], kind=c.kind()))
     d.update(kw); return d
+
+def malformed(c, segs):
+    """None if every script result of the implementation has the documented shape, else a description
+    (BADCRS verdicts of the structural validation, truncated lines, ...)"""
+    try:
+        if len(segs) != len(c.script): return "wrong number of script results"
+        for cmd, sg in zip(c.script, segs):
+            if cmd[0] == "dump":
+                dump_tokens(parse_dump_raw(sg)[0])
+            elif cmd[0] == "cinv":
+                if sg != "I -":
+                    if not sg.startswith("I {"): return "bad cinv result"
+                    out_dense_tokens(sg[2:])
+            elif cmd[0] in ("apply", "cycle"):
+                if not (sg.startswith("[") and sg.endswith("]")): return "bad vector result"
+            elif cmd[0] in ("rebuild", "rebuildp"):
+                if sg != "ok": return "bad rebuild result"
+            elif cmd[0] == "fresh":
+                if not sg.startswith("F D ") or " [" not in sg: return "bad fresh result"
+                dump_tokens(parse_dump_raw(sg[2:sg.rindex(" [")])[0])
+        return None
+    except Exception as e:
+        return "unparsable (%s: %s)" % (type(e).__name__, str(e)[:80])
 
 def run_impl(ctx, cases, env=None):
     """implementation outputs; a crashing case kills its shard (the runner marks the first unanswered case
@@ -329,14 +357,22 @@ def run_cases(ctx, cases, model_exe, env=None):
             if o != "EXC logic_error":
                 fails.append(fail(c, "runtime wrapper: ruge_stuben on a block backend must raise logic_error", impl=o))
             continue
+        if not c.cfg["allow_rebuild"] and any(cmd[0] in ("rebuild", "rebuildp") for cmd in c.script):
+            # amg::rebuild: precondition(prm.allow_rebuild, "allow_rebuild is not set!")
+            st["oracle_checks"] += 1
+            if o != "EXC runtime_error":
+                fails.append(fail(c, "rebuild() on a hierarchy built with allow_rebuild = false must raise", impl=o))
+            continue
         if o.startswith(("EXC", "UNSUPPORTED")):
             # construction failed with an exception (zero pivot of the coarse solver, P not divisible into
             # blocks with block_size = 1, ...): an admissible outcome; nothing to compare
             st.setdefault("impl_exceptions", 0); st["impl_exceptions"] += 1
             continue
-        segs = o.split(" ; "); segs_of[c.cid] = segs
-        if len(segs) != len(c.script):
-            fails.append(fail(c, "amgb driver: wrong number of script results", impl=o)); continue
+        segs = o.split(" ; ")
+        bad = malformed(c, segs)
+        if bad:
+            fails.append(fail(c, "amgb driver: malformed hierarchy dump of the implementation: " + bad, impl=o)); continue
+        segs_of[c.cid] = segs
         dumps = {}                       # script index -> parsed dump
         for i, cmd in enumerate(c.script):
             if cmd[0] == "dump": dumps[i] = parse_dump_raw(segs[i])[0]
